@@ -250,7 +250,9 @@ func refv4Canonical(c gen.V4Case) []byte { return refv4.Canonical(c.Ref()) }
 
 // deepRelay wraps inner in depth relay levels (hop counts 0..depth-1 from the inside out); with
 // opts every level also carries an interface-id option.
-func deepRelay(depth int, inner []byte, opts bool) []byte { return deepRelayHops(depth, inner, opts, 0) }
+func deepRelay(depth int, inner []byte, opts bool) []byte {
+	return deepRelayHops(depth, inner, opts, 0)
+}
 
 // deepRelayHops: as deepRelay, with the hop-count FIELD of every level chosen independently of the real nesting
 // depth (a field is just a field: 0 honest, 1 all zero, 2 all 31, 3 all 255, 4 counting the other way).
